@@ -66,7 +66,7 @@ confirmed = res.get("demo_with") == "FAIL" and res.get("demo_without") == "PASS"
 meta["confirmed"] = confirmed
 meta["confirmation"] = res
 # run my checks in a scratch copy
-race = "0" if any(c in ("C09", "C10", "C11", "C20") for c in checks) else "1"
+race = "0" if any(c in ("C02", "C09", "C10", "C11", "C20") for c in checks) else "1"
 rc, out = sh(f"BASELINE=0 VERIF_SKIP_RACE_BUILD={race} /verif/tools/scratchrun.sh seed{ROUND}-{ID}-{n} {src}/patch.diff {' '.join(checks)}", timeout=7200)
 print(out.strip())
 meta["checks_run"] = out.strip().splitlines()
